@@ -34,8 +34,9 @@ type OpRec struct {
 	Calls     int // seam calls made inside this operation (metastore, KMS, AEAD, secret factory)
 	MSCalls   int
 	KMSCalls  int
-	Faulted   int // faults fired inside this operation
-	Refused   int // KMS unwraps refused inside this operation because the key is revoked (World.KMSRefusesRevoked)
+	Faulted   int  // faults fired inside this operation
+	InjPanic  bool // an injected panic (aead.panic) unwound the operation; Err is set to an injected error
+	Refused   int  // KMS unwraps refused inside this operation because the key is revoked (World.KMSRefusesRevoked)
 	FaultDesc []string
 	Err       error
 	Panic     string
@@ -79,7 +80,8 @@ const (
 	FErrAfter  = "err-after"  // call applied, error returned (lost acknowledgement)
 	FFalseDup  = "false-dup"  // Store reports (false,nil) without inserting
 	FLatency   = "latency"
-	FRace      = "race" // Store only: another writer inserts the same (id, created) just before us
+	FRace      = "race"  // Store only: another writer inserts the same (id, created) just before us
+	FPanic     = "panic" // AEAD only: the cipher panics (a third-party AEAD may) while it is handed a heap copy of a key
 )
 
 // FaultPlan decides, call by call, what goes wrong.
@@ -605,6 +607,21 @@ func (a *aeadView) Decrypt(data, key []byte) ([]byte, error) {
 		a.w.leave(c, "err")
 		return nil, fmt.Errorf("aead decrypt: %w", errInjected)
 	}
+	// "aead.panic": the cipher is an interface the application supplies, and its failure mode may be a
+	// panic rather than an error. Injected only while the key argument IS a heap copy of a key that this
+	// same operation obtained from an earlier unwrap (the data row key in decryptRow): a failure "after
+	// the plaintext exists". The tape is consulted only when the kind is enabled.
+	if fp := a.w.Faults; fp.Kinds["aead.panic"] && !fp.Off && c.Op != nil && c.Op.Faulted < fp.MaxPerOp && a.w.heapKeyOf(c.Op, key) &&
+		a.w.T.Chance(1, 3, "aead.panic?") {
+		fp.Fired["aead.dec:"+FPanic]++
+		c.Op.Faulted++
+		c.Op.FaultDesc = append(c.Op.FaultDesc, fmt.Sprintf("aead.dec#%d:%s", c.Op.Calls-1, FPanic))
+		fp.LastFaultOp = c.Op.Idx
+		c.Fault = FPanic
+		a.w.S.Logf("fault aead.dec panic")
+		a.w.leave(c, "panic")
+		panic(InjectedPanic{})
+	}
 	out, err := a.real.Decrypt(data, key)
 	call := &AEADCall{Op: c.Op, Enc: false, KeyFP: refimpl.FP(key), DataLen: len(out), OK: err == nil}
 	if err == nil {
@@ -631,6 +648,28 @@ type Retained struct {
 	Buf []byte
 	FP  string
 	Op  *OpRec
+}
+
+// InjectedPanic is what an injected "aead.panic" fault panics with.
+type InjectedPanic struct{}
+
+func (InjectedPanic) Error() string { return "verif: injected panic" }
+
+// heapKeyOf reports whether key is (shares its first byte with) a heap buffer retained during op.
+func (w *World) heapKeyOf(op *OpRec, key []byte) bool {
+	if len(key) == 0 {
+		return false
+	}
+	for i := len(w.Retained) - 1; i >= 0; i-- {
+		r := w.Retained[i]
+		if r.Op != op {
+			break
+		}
+		if len(r.Buf) > 0 && &r.Buf[0] == &key[0] {
+			return true
+		}
+	}
+	return false
 }
 
 func (w *World) retain(src string, b []byte) {
